@@ -3,9 +3,11 @@ package scen
 import (
 	"bytes"
 	"context"
+	"errors"
 	"fmt"
 	"sort"
 	"strings"
+	"time"
 
 	protocol "github.com/hujm2023/go-sms-protocol"
 	"github.com/hujm2023/go-sms-protocol/cmpp"
@@ -352,7 +354,23 @@ var lsBuilder *protocol.BatchDataCodingEncoder
 func runLongSMS(r *core.Run) {
 	c := r.C
 	lsBuilder = nil
+	// the caller's context is the deployment's business (see batch.go): live, cancelled, deadline passed, with values
 	ctx := context.Background()
+	switch r.Cfg.Index % 16 {
+	case 3:
+		cc, cancel := context.WithCancel(ctx)
+		cancel()
+		ctx = cc
+		r.Probe("context_cancelled")
+	case 7:
+		cc, cancel := context.WithDeadline(ctx, time.Now().Add(-time.Hour))
+		defer cancel()
+		ctx = cc
+		r.Probe("context_deadline_passed")
+	case 15:
+		type key struct{}
+		ctx = context.WithValue(ctx, key{}, "tenant-7")
+	}
 	nMsg := 1 + c.Size(3, 1)
 	if c.Prob(1, 10) {
 		nMsg = 4 + c.Intn(5)
@@ -632,6 +650,11 @@ func splitAndSend(r *core.Run, ctx context.Context, m *lsMsg, air *[]airPart) bo
 	})
 	if p != nil {
 		r.Fail("C06", "panic", p.Frame, p.Kind, "%s(%d octets, coding %d): %s", label, len(m.text), m.req, p.Value)
+		return false
+	}
+	if err != nil && ctx.Err() != nil && errors.Is(err, ctx.Err()) {
+		// refusing to work for a caller that has gone away is an implementation's right; a wrong answer is not
+		r.Event("msg %d refused: the context is done", m.id)
 		return false
 	}
 	// --- expectations from the reference side
